@@ -120,8 +120,19 @@ func execute(t *testing.T, sc *Scenario, tier string, gen, sched, fault *simrt.T
 			sc.Post(rc, res)
 		}
 	} else {
-		// An aborted run proves nothing either way.
+		// An aborted run proves nothing either way ...
 		rc.Viols = nil
+		// ... except that a task of the code under test spinning forever is itself
+		// a violation of the liveness properties.
+		if res.Aborted == "livelock" && sc.LivelockIsViolation {
+			for _, a := range res.Alive {
+				if a.What == "aborted" && a.Kind == "repo" {
+					rc.Muted = false
+					rc.Failf("livelock:"+funcOf(a.Created), "task %d of the code under test (created in %s) went through more than %d scheduling points without ever blocking: it spins at %s", a.ID, a.Created, 4*sc.MaxSteps, a.Where)
+					break
+				}
+			}
+		}
 	}
 	out.Viols = rc.Viols
 	out.Nontrivial = rc.Nontrivial
